@@ -2,7 +2,7 @@
    Model: Schc.cm_compress / cm_decompress (manager.py), Schc.schc_compress / schc_decompress
    (/repo/microschc.py).  Only statements; proofs in theories/SchcRules.v. *)
 From Coq Require Import ZArith List Bool.
-From MS Require Import PyBase Bits Schc SchcSpec SchcRules EndToEnd Buffer BufferAbs Compute SchcBytes SchcRefine ParserBytes ParserRefine ComputeBytes ComputeRefine ManagerBytes ManagerRefine SchcRoundtrip FrontRoundtrip.
+From MS Require Import PyBase Bits Schc SchcSpec SchcRules EndToEnd Buffer BufferAbs Compute SchcBytes SchcRefine ParserBytes ParserRefine ComputeBytes ComputeRefine ManagerBytes ManagerRefine SchcRoundtrip FrontRoundtrip FrontRoundtripBytes.
 Import ListNotations.
 Open Scope Z_scope.
 
@@ -96,6 +96,21 @@ Theorem c15_front_roundtrip_c01 ct pre c post p fs pl :
   Forall (fun c' => forall r, In r (ctx_rules c') -> is_prefix (rule_id r) s = false) pre ->
   schc_compress (pre ++ c :: post) p = Ok s /\ schc_decompress ct (pre ++ c :: post) s = Ok p.
 Proof. exact (front_roundtrip_c01 ct pre c post p fs pl). Qed.
+(* the same on Buffers (the byte-level front end): canonical Buffers with the same bits; == of the result and the packet is True *)
+Theorem c15_front_roundtrip_bytes bctxs ctxs packet s : Forall2 ctx_rel bctxs ctxs -> canon packet -> bside packet = LEFT ->
+  schc_compress ctxs (abs packet) = Ok s -> schc_decompress compute_functions ctxs s = Ok (abs packet) ->
+  exists x y, bschc_compress bctxs packet = Ok x /\ canon x /\ abs x = s /\
+              bschc_decompress bctxs x = Ok y /\ canon y /\ abs y = abs packet /\ b_eq y packet = Ok true.
+Proof. exact (bfront_roundtrip bctxs ctxs packet s). Qed.
+Theorem c15_front_roundtrip_ctx_bytes bpre bc bpost pre c post packet s :
+  Forall2 ctx_rel (bpre ++ bc :: bpost) (pre ++ c :: post) -> canon packet -> bside packet = LEFT ->
+  Forall (fun c' => falls_through (cm_compress (ctx_parse c') (ctx_rules c') (abs packet) Up FIRST) = true) pre ->
+  cm_compress (ctx_parse c) (ctx_rules c) (abs packet) Up FIRST = Ok s ->
+  Forall (fun c' => forall r, In r (ctx_rules c') -> is_prefix (rule_id r) s = false) pre ->
+  cm_decompress compute_functions (ctx_rules c) s (Some Up) = Ok (abs packet) ->
+  exists x y, bschc_compress (bpre ++ bc :: bpost) packet = Ok x /\ canon x /\ abs x = s /\
+              bschc_decompress (bpre ++ bc :: bpost) x = Ok y /\ canon y /\ abs y = abs packet /\ b_eq y packet = Ok true.
+Proof. exact (bfront_roundtrip_ctx bpre bc bpost pre c post packet s). Qed.
 Print Assumptions c15_nomatch_first.
 Print Assumptions c15_nomatch_best.
 Print Assumptions c15_unparsable.
@@ -112,3 +127,5 @@ Print Assumptions c15_front_compress_bytes.
 Print Assumptions c15_front_decompress_bytes.
 Print Assumptions c15_front_roundtrip.
 Print Assumptions c15_front_roundtrip_c01.
+Print Assumptions c15_front_roundtrip_bytes.
+Print Assumptions c15_front_roundtrip_ctx_bytes.
